@@ -894,6 +894,14 @@ void ABTI_sched_free(ABTI_global *p_global, ABTI_local *p_local,
     if (p_sched->free) {
         p_sched->free(ABTI_sched_get_handle(p_sched));
     }
+    /* Free the associated work unit.  This must precede freeing the pools
+     * since the work unit can be associated with one of them (e.g., the main
+     * scheduler's ULT is associated with the first pool): its unit is returned
+     * to that pool. */
+    if (p_sched->p_ythread) {
+        ABTI_thread_free(p_global, p_local, &p_sched->p_ythread->thread);
+    }
+
     /* If sched is a default provided one, it should free its pool here.
      * Otherwise, freeing the pool is the user's responsibility. */
     size_t p;
@@ -911,11 +919,6 @@ void ABTI_sched_free(ABTI_global *p_global, ABTI_local *p_local,
         }
     }
     ABTU_free(p_sched->pools);
-
-    /* Free the associated work unit */
-    if (p_sched->p_ythread) {
-        ABTI_thread_free(p_global, p_local, &p_sched->p_ythread->thread);
-    }
 
     p_sched->data = NULL;
 
